@@ -66,9 +66,11 @@ Definition handle (c : scfg) (f : fs) (url_path : str) : sout :=
   match unquote url_path with
   | OutOfModel | Err _ _ => OOom
   | Ok up =>
-    let rel := lstrip_slash up in
-    if mem 0 rel then OStatus 51 (lit "Not found") else
-    match resolve_fully f (s_root c) (comps rel) with
+    match canon_strict (comps up) [] with
+    | None => OStatus 51 (lit "Not found")
+    | Some segs =>
+    if existsb (mem 0) segs then OStatus 51 (lit "Not found") else
+    match resolve_fully f (s_root c) segs with
     | FNone => OStatus 51 (lit "Not found")
     | FFuel => OOom
     | FPath fp =>
@@ -82,6 +84,7 @@ Definition handle (c : scfg) (f : fs) (url_path : str) : sout :=
                  end
              | _ => serve_file c f fp
              end
+    end
     end
   end.
 
@@ -126,12 +129,15 @@ Definition resolve_target (c : ucfg) (f : fs) (p : str) : res (option path) :=  
   match unquote p with
   | OutOfModel | Err _ _ => OutOfModel
   | Ok up =>
-      let rel := lstrip_slash up in
-      if mem 0 rel then Ok None else
-      match resolve_fully f (u_root c) (comps rel) with
+      match canon_strict (comps up) [] with
+      | None => Ok None
+      | Some segs =>
+      if existsb (mem 0) segs then Ok None else
+      match resolve_fully f (u_root c) segs with
       | FNone => Ok None
       | FFuel => OutOfModel
       | FPath t => if path_prefixb (u_root c) t then Ok (Some t) else Ok None
+      end
       end
   end.
 
